@@ -25,7 +25,7 @@ for meta_path in sorted(glob.glob(V + "/seeded/*/meta.json")):
                 sigs = sorted(set(re.findall(r"^  signature: (.*)$", r.stdout, re.M)))
                 det.append(dict(check=p, tier="quick", exit=r.returncode, signatures=sigs[:6]))
             finally:
-                subprocess.run(["pkill", "-9", "-f", "verif/build/.*[.]test"])
+                subprocess.run(["pkill", "-9", "-f", "^/verif/build/.*[.]test"])  # orphans of a timed-out check (not those of background sweeps, which live elsewhere)
     finally:
         subprocess.run(["git", "-C", "/repo", "checkout", "--", "."])
     meta["detected_by"] = det
